@@ -14,6 +14,10 @@ package interfaces
 //@   pure
 //@   ensures (result == nil) == VerifiedSeed(self, blockHeight, content, sender.MemberId(), sender.Signature())
 
+// A-KM-SIGN: what a key manager signs verifies under the member id it signs as
+//@ iface interfaces.KeyManager.SignConsensusMessage
+//@   ensures forall id Str :: SignsAs(self, id) ==> VerifiedMsg(self, blockHeight, content(content), id, content(result))
+
 // A-SPI: ValidateBlockCommitment is a pure predicate.
 //@ iface interfaces.BlockUtils.ValidateBlockCommitment
 //@   pure
@@ -37,3 +41,65 @@ package interfaces
 
 //@ iface interfaces.ElectionScheduler.RegisterOnElection
 //@   ensures true
+
+// ======================= wire plumbing (C20) =======================
+// The votes nested in a NEW_VIEW are re-encoded field by field from the received VIEW_CHANGE messages: every builder
+// field equals the corresponding reader field (header, sender, and - when the vote carries one - the whole prepared
+// proof including every PREPARE sender, in order). Builders are fresh objects (alive: allocated and never aliased).
+//@ pred RefCopied(b *protocol.BlockRefBuilder, r *protocol.BlockRef) = b != nil && alive[b] && b.MessageType == r.MessageType() && b.InstanceId == r.InstanceId()
+//@   | && b.BlockHeight == r.BlockHeight() && b.View == r.View() && b.BlockHash == r.BlockHash()
+//@ pred SenderCopied(b *protocol.SenderSignatureBuilder, r *protocol.SenderSignature) = b != nil && alive[b] && b.MemberId == r.MemberId() && b.Signature == r.Signature()
+//@ pred ProofCopied(pb *protocol.PreparedProofBuilder, p *protocol.PreparedProof) = pb != nil && alive[pb] && RefCopied(pb.PreprepareBlockRef, p.PreprepareBlockRef())
+//@   | && SenderCopied(pb.PreprepareSender, p.PreprepareSender()) && RefCopied(pb.PrepareBlockRef, p.PrepareBlockRef())
+//@   | && len(pb.PrepareSenders) == seq_len(p, "PrepareSenders")
+//@   | && (forall j int :: 0 <= j && j < len(pb.PrepareSenders) ==> SenderCopied(pb.PrepareSenders[j], seq_at(p, "PrepareSenders", j)))
+//@ pred NoProof(c *protocol.ViewChangeMessageContent) = c.SignedHeader().PreparedProof() == nil || len(c.SignedHeader().PreparedProof().Raw()) == 0
+//@ pred VoteCopied(cb *protocol.ViewChangeMessageContentBuilder, c *protocol.ViewChangeMessageContent) = cb != nil && alive[cb] && cb.SignedHeader != nil && alive[cb.SignedHeader]
+//@   | && cb.SignedHeader.MessageType == c.SignedHeader().MessageType() && cb.SignedHeader.InstanceId == c.SignedHeader().InstanceId()
+//@   | && cb.SignedHeader.BlockHeight == c.SignedHeader().BlockHeight() && cb.SignedHeader.View == c.SignedHeader().View()
+//@   | && SenderCopied(cb.Sender, c.Sender())
+//@   | && (NoProof(c) ==> cb.SignedHeader.PreparedProof == nil)
+//@   | && (!NoProof(c) ==> ProofCopied(cb.SignedHeader.PreparedProof, c.SignedHeader().PreparedProof()))
+
+//@ func ExtractConfirmationsFromViewChangeMessages
+//@   props C20 C09
+//@   requires forall i int :: 0 <= i && i < len(vcms) ==> vcms[i] != nil && vcms[i].content != nil
+//@   ensures [one-confirmation-per-vote] len(result) == len(vcms)
+//@   ensures [every-field-copied] forall k int :: 0 <= k && k < len(vcms) ==> VoteCopied(result[k], vcms[k].content)
+//@   loop range vcms
+//@     invariant [so-far] len(res) == $i && (forall k int :: 0 <= k && k < $i ==> VoteCopied(res[k], vcms[k].content))
+//@   loop for
+//@     invariant [src] iter_src(pSendersIter) == proof
+//@     invariant [pos] iter_pos(pSendersIter) == len(pSenders) && iter_pos(pSendersIter) <= seq_len(proof, "PrepareSenders")
+//@     invariant [senders-so-far] forall j int :: 0 <= j && j < len(pSenders) ==> SenderCopied(pSenders[j], seq_at(proof, "PrepareSenders", j))
+//@     invariant [outer] forall k int :: 0 <= k && k < len(res) ==> VoteCopied(res[k], vcms[k].content)
+//@     invariant [refs] RefCopied(ppBlockRefBuilder, proof.PreprepareBlockRef()) && SenderCopied(ppSender, proof.PreprepareSender()) && RefCopied(pBlockRef, proof.PrepareBlockRef())
+
+// raw <-> typed conversion (C20, C12): the raw message carries the arm that matches the message's Go type, the bytes of its
+// content and (for the three block-carrying types) its block; parsing yields the Go type that matches the arm the bytes
+// carry, a content reader over the bytes of that arm and the raw message's block; bytes that carry no known arm yield nil.
+//@ func CreateConsensusRawMessage
+//@   props C20
+//@   requires istype(message, *PreprepareMessage) || istype(message, *PrepareMessage) || istype(message, *CommitMessage) || istype(message, *ViewChangeMessage) || istype(message, *NewViewMessage)
+//@   requires istype(message, *PreprepareMessage) ==> dyn(message, *PreprepareMessage) != nil && dyn(message, *PreprepareMessage).content != nil
+//@   requires istype(message, *PrepareMessage) ==> dyn(message, *PrepareMessage) != nil && dyn(message, *PrepareMessage).content != nil
+//@   requires istype(message, *CommitMessage) ==> dyn(message, *CommitMessage) != nil && dyn(message, *CommitMessage).content != nil
+//@   requires istype(message, *ViewChangeMessage) ==> dyn(message, *ViewChangeMessage) != nil && dyn(message, *ViewChangeMessage).content != nil
+//@   requires istype(message, *NewViewMessage) ==> dyn(message, *NewViewMessage) != nil && dyn(message, *NewViewMessage).content != nil
+//@   ensures result != nil
+//@   ensures [preprepare] istype(message, *PreprepareMessage) ==> WireTag(content(result.Content)) == 0 && WirePayload(content(result.Content)) == content(dyn(message, *PreprepareMessage).content.Raw()) && result.Block == dyn(message, *PreprepareMessage).block
+//@   ensures [prepare] istype(message, *PrepareMessage) ==> WireTag(content(result.Content)) == 1 && WirePayload(content(result.Content)) == content(dyn(message, *PrepareMessage).content.Raw()) && result.Block == nil
+//@   ensures [commit] istype(message, *CommitMessage) ==> WireTag(content(result.Content)) == 2 && WirePayload(content(result.Content)) == content(dyn(message, *CommitMessage).content.Raw()) && result.Block == nil
+//@   ensures [view-change] istype(message, *ViewChangeMessage) ==> WireTag(content(result.Content)) == 3 && WirePayload(content(result.Content)) == content(dyn(message, *ViewChangeMessage).content.Raw()) && result.Block == dyn(message, *ViewChangeMessage).block
+//@   ensures [new-view] istype(message, *NewViewMessage) ==> WireTag(content(result.Content)) == 4 && WirePayload(content(result.Content)) == content(dyn(message, *NewViewMessage).content.Raw()) && result.Block == dyn(message, *NewViewMessage).block
+
+//@ func ToConsensusMessage
+//@   props C20 C12
+//@   safety iface
+//@   ensures [preprepare] WireTag(content(consensusMessage.Content)) == 0 ==> istype(result, *PreprepareMessage) && dyn(result, *PreprepareMessage).content != nil && content(dyn(result, *PreprepareMessage).content.Raw()) == WirePayload(content(consensusMessage.Content)) && dyn(result, *PreprepareMessage).block == consensusMessage.Block
+//@   ensures [prepare] WireTag(content(consensusMessage.Content)) == 1 ==> istype(result, *PrepareMessage) && dyn(result, *PrepareMessage).content != nil && content(dyn(result, *PrepareMessage).content.Raw()) == WirePayload(content(consensusMessage.Content))
+//@   ensures [commit] WireTag(content(consensusMessage.Content)) == 2 ==> istype(result, *CommitMessage) && dyn(result, *CommitMessage).content != nil && content(dyn(result, *CommitMessage).content.Raw()) == WirePayload(content(consensusMessage.Content))
+//@   ensures [view-change] WireTag(content(consensusMessage.Content)) == 3 ==> istype(result, *ViewChangeMessage) && dyn(result, *ViewChangeMessage).content != nil && content(dyn(result, *ViewChangeMessage).content.Raw()) == WirePayload(content(consensusMessage.Content)) && dyn(result, *ViewChangeMessage).block == consensusMessage.Block
+//@   ensures [new-view] WireTag(content(consensusMessage.Content)) == 4 ==> istype(result, *NewViewMessage) && dyn(result, *NewViewMessage).content != nil && content(dyn(result, *NewViewMessage).content.Raw()) == WirePayload(content(consensusMessage.Content)) && dyn(result, *NewViewMessage).block == consensusMessage.Block
+//@   ensures [a-parsed-message-came-from-a-raw-message] result != nil ==> consensusMessage != nil
+//@   ensures [unknown-arm] (WireTag(content(consensusMessage.Content)) < 0 || WireTag(content(consensusMessage.Content)) > 4) ==> result == nil
